@@ -272,8 +272,10 @@ def cmd_check(prop, tier, seed, only=None, jobs=None):
             role = "fallback"
         if role:
             chosen.add((r["contract"], r["case"]))
+            # (a contract may state its own cap per tier: `enumeration_cap = {"quick": n, "thorough": m}` -- reported in the evidence)
+            own_cap = (getattr(c, "enumeration_cap", None) or {}).get(tier)
             tb_jobs.append({"mode": "enumerate", "module": r["module"], "contract": r["contract"], "case": r["case_params"],
-                            "maxlen": maxlen, "cap": cap_standin, "seed": seed, "time_limit": tb_limit})
+                            "maxlen": maxlen, "cap": own_cap or cap_standin, "seed": seed, "time_limit": tb_limit})
             tb_meta.append((r, role))
     rest = [r for r in ok_results if (r["contract"], r["case"]) not in chosen and by_name[r["contract"]].target]
     _random.Random(seed).shuffle(rest)
@@ -289,7 +291,7 @@ def cmd_check(prop, tier, seed, only=None, jobs=None):
         agg = tierb.setdefault((r["contract"], role), {"contract": r["contract"], "function": r["target"], "role": role,
                                                         "clauses": sorted(set(c.bounded_clauses) | set(c.bounded_obligations(r["case_params"]))) if role == "stand-in" else "all clauses of the contract",
                                                         "bound": {"max_array_length": maxlen, "alphabet_sizes": 5, "scalar_candidates": 9,
-                                                                  "cap_per_case": cap_standin if role != "cross-check" else cap_xcheck},
+                                                                  "cap_per_case": ((getattr(c, "enumeration_cap", None) or {}).get(tier) or cap_standin) if role != "cross-check" else cap_xcheck},
                                                         "cases": 0, "evaluations": 0, "rejected_by_requires": 0,
                                                         "distinct_outcome_classes": 0, "cases_enumerated_exhaustively": 0,
                                                         "cases_cut_short_by_the_time_limit": 0, "time_limit_per_case_s": tb_limit, "failures": 0})
